@@ -93,6 +93,7 @@ pub struct Driver {
     clock: u64,
     pub dump_enabled: bool,
     pub list_files: bool,
+    expect_err: bool,
 }
 
 fn ty_code(t: ValueType) -> &'static str {
@@ -136,6 +137,7 @@ impl Driver {
             clock: 1_000_000,
             dump_enabled: true,
             list_files: true,
+            expect_err: false,
         }
     }
 
@@ -237,7 +239,8 @@ impl Driver {
                 let _ = writeln!(self.out, "R ok {what}");
             }
             Err(e) => {
-                let _ = writeln!(self.out, "R err {what} {}", e.replace(['\n', ' '], "_"));
+                let tag = if self.expect_err { "experr" } else { "err" };
+                let _ = writeln!(self.out, "R {tag} {what} {}", e.replace(['\n', ' '], "_"));
             }
         }
     }
@@ -270,8 +273,13 @@ impl Driver {
 
     pub fn exec(&mut self, op: &Op) {
         let _ = writeln!(self.out, "H {}", op.text());
-        let mutating = !op.is_read() && !matches!(op, Op::Snap(_) | Op::Rel(_) | Op::Verdict(..));
+        let mutating = !op.is_read()
+            && !matches!(op, Op::Snap(_) | Op::Rel(_) | Op::Verdict(..) | Op::ExpectErr);
+        let was_expecting = self.expect_err;
         match op {
+            Op::ExpectErr => {
+                self.expect_err = true;
+            }
             Op::Put(k, v) => self.write(k, v, ValueType::Value),
             Op::Del(k) => self.write(k, &[], ValueType::Tombstone),
             Op::WDel(k) => self.write(k, &[], ValueType::WeakTombstone),
@@ -484,6 +492,9 @@ impl Driver {
                     );
                 }
             }
+        }
+        if was_expecting {
+            self.expect_err = false;
         }
         {
             let mut log = self.filter_log.lock().expect("lock");
